@@ -178,7 +178,10 @@ pub fn oracle(rec: &Rec) -> Option<String> {
             let rn = raw.iter().map(|x| x * x).sum::<f64>().sqrt();
             let dke = (delta - std::f64::consts::LN_2 + (ue + (1.0 - ue) * zeta * zeta).ln_1p()) * (n as f64 - 1.0);
             if rn.is_finite() && rn > 0.0 && gn.is_finite() && gn > 0.0 {
-                for k in 0..n { let rf = raw[k] / rn; if !close(rec.outs[0][k], rf, 1.0, 64.0 + 4.0 * n as f64) { return bad(k, "momentum", rec.outs[0][k], rf); } }
+                // the raw vector cg*e + cp*p can be the small difference of two larger terms (momentum nearly anti-parallel to the gradient):
+                // rounding differences of the projection `ue` (inside cg) are amplified by (|cg e_k| + |cp p_k|) / |raw|
+                let ue_amp = (1.0 - zeta) * (1.0 - zeta) * (n as f64) * (1.0 + ue.abs());
+                for k in 0..n { let rf = raw[k] / rn; let sc = 1.0 + ((cg * e[k]).abs() + (cp * p[k]).abs() + ue_amp * e[k].abs()) / rn; if !close(rec.outs[0][k], rf, sc, 64.0 + 4.0 * n as f64) { return bad(k, "momentum", rec.outs[0][k], rf); } }
                 // ln_1p(arg) with arg = ue + (1-ue) zeta^2 is ill-conditioned when arg -> -1 (momentum anti-parallel to the gradient, large
                 // step): a rounding difference of n eps in `ue` (summation order of the projection) is amplified by 1/(1+arg)
                 let arg = ue + (1.0 - ue) * zeta * zeta;
